@@ -171,6 +171,40 @@ theorem dimOf_foldl_insert_nothas (j : Nat) : ∀ (ps : List (Nat × Nat)) (f : 
 theorem dimOf_merge_right (a b : FI) (j : Nat) (hs : Sorted a) (hj : FI.has j a = false) :
     FI.dimOf j (FI.merge a b) = FI.dimOf j b := dimOf_foldl_insert_nothas j b a hs hj
 
+/-- in a sorted list every entry is what `dimOf` finds -/
+theorem dimOf_mem : ∀ (f : FI), Sorted f → ∀ p ∈ f, FI.dimOf p.1 f = p.2
+  | [], _, p, hp => by cases hp
+  | q :: qs, hs, p, hp => by
+    have hh := List.pairwise_cons.mp hs
+    rw [dimOf_cons]
+    cases List.mem_cons.mp hp with
+    | inl e => simp [e]
+    | inr e =>
+      have : q.1 < p.1 := hh.1 p e
+      have hne : ¬ q.1 = p.1 := by omega
+      simp only [hne, ↓reduceIte]
+      exact dimOf_mem qs hh.2 p e
+
+def DimsAgree (f g : FI) : Prop := ∀ i, FI.has i f = true → FI.has i g = true → FI.dimOf i f = FI.dimOf i g
+
+theorem dimsAgree_iff (f g : FI) (hs : Sorted f) : dimsAgree f g = true ↔ DimsAgree f g := by
+  unfold dimsAgree DimsAgree
+  simp only [List.all_eq_true, Bool.or_eq_true, Bool.not_eq_true', beq_iff_eq]
+  constructor
+  · intro h i hf hg
+    obtain ⟨p, hp, rfl⟩ := (has_iff i f).mp hf
+    rw [dimOf_mem f hs p hp]
+    cases h p hp with
+    | inl e => rw [e] at hg; cases hg
+    | inr e => exact e.symm
+  · intro h p hp
+    by_cases hg : FI.has p.1 g = true
+    · right
+      rw [← h p.1 ((has_iff p.1 f).mpr ⟨p, hp, rfl⟩) hg, dimOf_mem f hs p hp]
+    · left; simpa using hg
+
+theorem DimsAgree.symm {f g : FI} (h : DimsAgree f g) : DimsAgree g f := fun i hg hf => (h i hf hg).symm
+
 theorem remove_cons (j : Nat) (p : Nat × Nat) (ps : FI) :
     FI.remove j (p :: ps) = if p.1 = j then FI.remove j ps else p :: FI.remove j ps := by
   unfold FI.remove
@@ -214,7 +248,7 @@ theorem fi_sorted_aux :
   · intro aux a b iha ihb hw
     simp only [WF, Bool.and_eq_true] at hw; simp only [fi]; exact iha hw.1.1.1
   · intro aux a b iha ihb hw
-    simp only [WF, Bool.and_eq_true] at hw; simp only [fi]; exact merge_sorted _ _ (iha hw.1.1.1)
+    simp only [WF, Bool.and_eq_true] at hw; simp only [fi]; exact merge_sorted _ _ (iha hw.1.1.1.1)
   · intro aux a b iha ihb hw
     simp only [WF, Bool.and_eq_true] at hw; simp only [fi]; exact iha hw.1.1.1
   · intro aux a b iha ihb hw
